@@ -242,3 +242,32 @@ Print Assumptions C01_trichotomyb_spec.
 Theorem C01_all_invb_sound s : all_invb s = true -> trich s /\ act_inv s /\ all_ok s.
 Proof. exact (all_invb_sound s). Qed.
 Print Assumptions C01_all_invb_sound.
+
+(* ---------------- histories that also change Variable::weight between solves (Vpsc/VpscModelW.v, VpscWeight.v):
+   the op  SetWeight i w  (w > 0, the pin / lock idiom) preserves the invariant, so it holds in every state of every
+   history over the five ops addConstraint / desired position / weight / solve / satisfy, the final scan never throws
+   there, and every returned state satisfies every unflagged constraint.  (The block-statistics invariant all_ok is
+   NOT claimed for weight histories: sums accumulated before a weight changed are stale for deleted blocks.) *)
+From Adapt Require Import Vpsc.VpscReach Vpsc.VpscModelW Vpsc.VpscWeight.
+Theorem C01_set_weight_preserves s i w :
+  book s -> act_inv s -> book (set_weight s i w) /\ act_inv (set_weight s i w).
+Proof. exact (set_weight_preserves s i w). Qed.
+Print Assumptions C01_set_weight_preserves.
+
+Theorem C01_weight_history_inv s : reachable_w s -> inv s.
+Proof. exact (reachable_w_inv s). Qed.
+Print Assumptions C01_weight_history_inv.
+
+Theorem C01_no_final_throw_weight_history fuel s p s2 :
+  reachable_w s -> split_blocks s = Ok p -> satisfy_loop fuel (fst p) = Ok s2 ->
+  final_scan (cleanup s2) = Ok (cleanup s2).
+Proof. exact (no_final_throw_w fuel s p s2). Qed.
+Print Assumptions C01_no_final_throw_weight_history.
+
+Theorem C01_sat_on_return_weight_history fuel s o s' :
+  reachable_w s -> run_result o fuel s s' -> wf_vars (svars s') ->
+  forall k, (k < length (scons s'))%nat -> uns_of s' k = false ->
+    let sl := slackv (svars s') (place_of (final_positions s')) (con_of s' k) in
+    ZERO_UPPERBOUND <= sl /\ (act_of s' k = true -> sl == 0) /\ (ceq (con_of s' k) = true -> sl == 0).
+Proof. exact (sat_on_return_w fuel s o s'). Qed.
+Print Assumptions C01_sat_on_return_weight_history.
